@@ -123,7 +123,7 @@ fn variants(b: &Board, p: &Pos, sel: u16, kind: u8) -> Vec<(Board, &'static str)
 
 pub fn run(ctx: &Ctx) -> Report {
     let mut rep = Report::new(ctx);
-    rep.rule = "Pairs: a board A from the generators (heavy weight on en-passant motifs: capturing pawn present/absent/pinned on file, rank or diagonal, capture exposing the king along the rank, mover in check with the capture being or not being a remedy, a bishop/queen/knight/king standing where a capturing pawn would stand) paired with: A with other clocks; A with the EP file cleared; A with the EP file moved to every other file the library accepts; A with one piece removed/retyped/added, a right toggled or the side flipped; A with a right moved to another own rook on the same wing (Chess960); an unrelated board; and triples (A, clocks, EP-cleared) for transitivity. Oracle: same placement, side and rights by the reference, and the reference's 'a legal EP capture exists, on file f' agrees; also reflexive and symmetric on every pair. Non-trivial = at least one board of the pair has an EP file set; distinct by hash of both texts.".into();
+    rep.rule = "Pairs: a board A from the generators (heavy weight on en-passant motifs: capturing pawn present/absent/pinned on file, rank or diagonal, capture exposing the king along the rank, mover in check with the capture being or not being a remedy, a bishop/queen/knight/king standing where a capturing pawn would stand) paired with: A with other clocks; A with the EP file cleared; A with the EP file moved to every other file the library accepts; A with one piece removed/retyped/added, a right toggled or the side flipped; A with a right moved to another own rook on the same wing (Chess960); an unrelated board; and triples (A, clocks, EP-cleared) for transitivity. Oracle: same placement, side and rights by the reference, and the reference's 'a legal EP capture exists, on file f' agrees; also reflexive and symmetric on every pair. In the thorough tier also pairs of different boards with EQUAL hashes, constructed by a generalised-birthday search over the extracted Zobrist keys. Non-trivial = at least one board of the pair has an EP file set, or a constructed collision pair; distinct by hash of both texts.".into();
     rep.assumptions = vec!["reference legal_ep_file(): make the capture, test the own king".into()];
     rep.required_classes = vec![
         "ep-set:capture-legal", "ep-set:no-capturer", "ep-set:capturer-illegal", "ep-set:non-pawn-on-capture-square", "pair:ep-cleared", "pair:ep-moved", "pair:other-clocks",
@@ -205,6 +205,27 @@ pub fn run(ctx: &Ctx) -> Report {
             })
         },
     ));
+    // thorough tier: pairs of different accepted boards whose hashes COLLIDE (constructed with a
+    // 4-list birthday search over the extracted keys): same_position must not hide behind the hash
+    if ctx.tier == Tier::Thorough {
+        let mut part = PartResult::empty();
+        if let Ok(m) = super::c10::model() {
+            for (a, b) in crate::collide::kind_collision_pairs(m, 16) {
+                let (Some(ba), Some(bb)) = (build(&a), build(&b)) else { continue };
+                part.stats.eval(1);
+                part.stats.class_if(ba.hash() == bb.hash(), "constructed-hash-collision-pair");
+                part.stats.nontrivial(fnv(format!("{}|{}", a.text(), b.text()).as_bytes()));
+                if part.stats.samples.len() < 2 {
+                    part.stats.samples.push(format!("'{:#}' vs '{:#}' (equal hashes {:#018x})", ba, bb, ba.hash()));
+                }
+                if let Err(f) = check_pair(&ba, &bb, "constructed hash collision") {
+                    part.failures.push(f);
+                    break;
+                }
+            }
+        }
+        rep.add(part);
+    }
     rep
 }
 
